@@ -9,9 +9,12 @@ the layout, as functions of `zoom`.  Hand-written mirror.
   page_rectangle = (left / scale, top / scale, (right - left) / scale, (bottom - top) / scale)   (ZeroDivisionError)
   stream.transform(d=-1, f=page.height * scale)         → `1 0 0 -1 0 f cm`
   Page.paint: stream.transform(a=scale, d=scale)        → `s 0 0 s 0 0 cm`
-  bleed = {k: v * scale};  TrimBox = Media ± bleed;  BleedBox = Trim ∓ min(10, bleed)   (10 pt cap: NOT zoom-linear)
+  bleed = {k: v * scale};  TrimBox = Media ± bleed;  BleedBox = Trim ∓ min(10 * zoom, bleed)   (cap scaled by zoom
+             since d924a7c: zoom-linear for zoom ≥ 0)
   add_links: Rect = transform_point(x1, y1), transform_point(x2, y2) for internal / external links
              names += [name, [page /XYZ x y 0]] with (x, y) = transform_point(anchor)
+  /Dests name tree: `sorted(pdf_names, key=key_bytes)` — the bytes pydyf writes for the key (ASCII as is, otherwise
+             BOM_UTF16_BE + UTF-16-BE; since 09da5a8)
   make_bookmark_tree(scale, transform_pages=True): Matrix(a=scale, d=-scale, f=page.height * scale)
   numbers are written by pydyf `_to_bytes`: integer-valued floats as ints, others `f'{x:f}'.rstrip('0')`.
 No Mathlib: linked into the driver.
@@ -66,14 +69,16 @@ def trimBox (s : Rat) (p : Page) : Box4 :=
   let m := mediaBox s p
   ⟨m.x1 + p.bleed.left * s, m.y1 + p.bleed.top * s, m.x2 - p.bleed.right * s, m.y2 - p.bleed.bottom * s⟩
 
-/-- Python `min(10, x)`. -/
-def min10 (x : Rat) : Rat := if x < 10 then x else 10
+/-- Python `min(10 * zoom, x)` (the first argument wins a tie: same value). -/
+def minCap (z x : Rat) : Rat := if x < 10 * z then x else 10 * z
 
-/-- `bleed_left = trim_left - min(10, bleed['left'])` … -/
-def bleedBox (s : Rat) (p : Page) : Box4 :=
+/-- `bleed_left = trim_left - min(10 * zoom, bleed['left'])` … with `bleed[k] = page.bleed[k] * scale`,
+`scale = zoom * 0.75` (the cap is in PDF points *of the unzoomed page*: 10 pt × zoom). -/
+def bleedBox (z : Rat) (p : Page) : Box4 :=
+  let s := scale z
   let t := trimBox s p
-  ⟨t.x1 - min10 (p.bleed.left * s), t.y1 - min10 (p.bleed.top * s),
-   t.x2 + min10 (p.bleed.right * s), t.y2 + min10 (p.bleed.bottom * s)⟩
+  ⟨t.x1 - minCap z (p.bleed.left * s), t.y1 - minCap z (p.bleed.top * s),
+   t.x2 + minCap z (p.bleed.right * s), t.y2 + minCap z (p.bleed.bottom * s)⟩
 
 /-- `page_rectangle`, evaluated only under `s ≠ 0` (see `generatePdf`). -/
 def pageRectangle (s : Rat) (p : Page) : Box4 :=
@@ -119,9 +124,10 @@ structure PagePdf where
   annots : List Annot
   deriving Repr, DecidableEq, BEq, Inhabited
 
-/-- One iteration of the page loop of `generate_pdf` (geometry only). -/
-def pagePdf (s : Rat) (p : Page) (links : List Link) : PagePdf :=
-  { media := mediaBox s p, trim := trimBox s p, bleed := bleedBox s p, rectangle := pageRectangle s p,
+/-- One iteration of the page loop of `generate_pdf` (geometry only); `s = scale z`. -/
+def pagePdf (z : Rat) (p : Page) (links : List Link) : PagePdf :=
+  let s := scale z
+  { media := mediaBox s p, trim := trimBox s p, bleed := bleedBox z p, rectangle := pageRectangle s p,
     flipF := p.height * s, paintScale := s, annots := annots (pageMatrix s p) links }
 
 /-! ### Bookmarks: `make_bookmark_tree` / `make_page_bookmark_tree` -/
@@ -206,22 +212,45 @@ def docOutlines (s : Rat) (pageIndex : Nat) (st : BmState) : List Page → Excep
 
 structure PdfOut where
   pages : List PagePdf
-  /-- `sorted(pdf_names)`: names are distinct (`resolve_links` keeps the first of each), so the order is the
-  code-point order of the names. -/
+  /-- `sorted(pdf_names, key=key_bytes)`: names are distinct (`resolve_links` keeps the first of each), so the order
+  is the byte order of the keys as written (`keyBytes`). -/
   names : List Dest
   outlines : List Outline
   deriving Repr, DecidableEq, BEq, Inhabited
 
 /-- page loop over `zip(document.pages, page_links_and_anchors)`. -/
-def pagesPdf (s : Rat) : List Page → List (List Link × List Anchor) → List PagePdf
-  | p :: ps, la :: las => pagePdf s p la.1 :: pagesPdf s ps las
+def pagesPdf (z : Rat) : List Page → List (List Link × List Anchor) → List PagePdf
+  | p :: ps, la :: las => pagePdf z p la.1 :: pagesPdf z ps las
   | _, _ => []
 
 def allDests (s : Rat) (pageIndex : Nat) : List Page → List (List Link × List Anchor) → List Dest
   | p :: ps, la :: las => dests (pageMatrix s p) pageIndex la.2 ++ allDests s (pageIndex + 1) ps las
   | _, _ => []
 
-def sortDests (ds : List Dest) : List Dest := ds.mergeSort (fun a b => decide (a.name ≤ b.name))
+/-- `c.encode('utf-16-be')` of one character: two bytes, or a surrogate pair (four bytes) above the BMP. -/
+def utf16be (c : Char) : List Nat :=
+  let n := c.toNat
+  if n < 0x10000 then [n / 256, n % 256]
+  else
+    let v := n - 0x10000
+    let hi := 0xD800 + v / 0x400
+    let lo := 0xDC00 + v % 0x400
+    [hi / 256, hi % 256, lo / 256, lo % 256]
+
+/-- `key_bytes` of `generate_pdf`: `name.encode('ascii')` if `name.isascii()`, else
+`BOM_UTF16_BE + name.encode('utf-16-be')` — the bytes `pydyf.String(name)` puts in the file. -/
+def keyBytes (name : String) : List Nat :=
+  if name.toList.all (fun c => c.toNat < 128) then name.toList.map Char.toNat
+  else 0xFE :: 0xFF :: name.toList.flatMap utf16be
+
+/-- Python's `bytes` comparison: lexicographic on the byte values, a proper prefix first (`a ≤ b`). -/
+def bytesLe : List Nat → List Nat → Bool
+  | [], _ => true
+  | _ :: _, [] => false
+  | a :: as, b :: bs => if a < b then true else if b < a then false else bytesLe as bs
+
+/-- `sorted(pdf_names, key=key_bytes)` (a stable sort, as `mergeSort` is). -/
+def sortDests (ds : List Dest) : List Dest := ds.mergeSort (fun a b => bytesLe (keyBytes a.name) (keyBytes b.name))
 
 /-- `generate_pdf(document, target, zoom, **options)`, the layout-derived part.
 * `ZeroDivisionError`: `left / scale` in the first iteration of the page loop ⇔ `scale = 0` and there is a page;
@@ -238,7 +267,7 @@ def generatePdf (zoom : Rat) (needsHtml : Bool) (d : Document) : Except PyErr Pd
     | .error e => .error e
     | .ok outlines =>
       if needsHtml ∧ d.hasHtml = false ∧ d.pages ≠ [] then .error (.noneAttribute "Document._html")
-      else .ok { pages := pagesPdf s d.pages la, names := sortDests (allDests s 0 d.pages la), outlines := outlines }
+      else .ok { pages := pagesPdf zoom d.pages la, names := sortDests (allDests s 0 d.pages la), outlines := outlines }
 
 /-! ### pydyf number formatting -/
 
